@@ -117,8 +117,15 @@ class _FakePopen:
     def __init__(self, sim, argv):
         self.sim = sim
         self.argv = argv
+        self.args = argv
         self.returncode = None
         self.pid = 4_500_000
+        self.stdin = self.stdout = self.stderr = None
+
+    def kill(self):
+        pass
+
+    terminate = kill
 
     def communicate(self, input=None, timeout=None):
         rc, out, err = self.sim.exec(self.argv, input or "")
